@@ -51,6 +51,13 @@ func runHistories(c *core.Ctx, which string) {
 			cases = append(cases, id)
 		}
 	}
+	if which == "C01" {
+		for k := 0; k < 8; k++ {
+			if id := fmt.Sprintf("named/sibling-closures/%d", k); c.Want(id) {
+				cases = append(cases, id)
+			}
+		}
+	}
 	if which == "C02" && c.Want("named/shared-source-reverted-after-sibling-build") {
 		cases = append([]string{"named/shared-source-reverted-after-sibling-build"}, cases...)
 	}
@@ -101,10 +108,75 @@ def b(self):
 	}
 }
 
+// c01SiblingClosures: several closures stamped out by one factory (one compiled body, different captured values and default
+// values) referenced by one target; each captured or default value is edited in turn, alone, and the next build must
+// re-execute the target. Case k edits value k (0-2 captured, 3-5 defaults, 6 a closure captured by another closure, 7 the
+// captured value of a lambda made in a loop).
+func c01SiblingClosures(c *core.Ctx, id string) {
+	var k int
+	fmt.Sscanf(id, "named/sibling-closures/%d", &k)
+	dir := filepath.Join(c.Scratch, fmt.Sprintf("c01n-%d", os.Getpid()))
+	os.RemoveAll(dir)
+	defer os.RemoveAll(dir)
+	s := pj.NewSession(dir)
+	os.WriteFile(filepath.Join(s.Root, "dawn.toml"), []byte("name = \"n\"\n"), 0o644)
+	vals := []string{"\"alpha\"", "\"beta\"", "\"gamma\"", "1", "2", "3", "\"inner-most\"", "[10, 20, 30]"}
+	text := func() string {
+		return fmt.Sprintf(`def emitter(n, k=0):
+    def inner(d=k):
+        return [n, d]
+    return inner
+first = emitter(%s, %s)
+second = emitter(%s, %s)
+third = emitter(%s, %s)
+wrapped = emitter(emitter(%s))
+adders = [(lambda q: lambda: q)(x) for x in %s]
+@target(generates=["out/t.txt"])
+def t(self):
+    v.body("//:t", [first(), second(), third(), wrapped()[0](), [a() for a in adders]], [], "out/t.txt")
+`, vals[0], vals[3], vals[1], vals[4], vals[2], vals[5], vals[6], vals[7])
+	}
+	build := func() ([]string, string) {
+		from := s.LogLen()
+		res := pj.Build(pj.BuildReq{Root: s.Root, Target: "//:t"})
+		var ex []string
+		for _, le := range s.ReadLog(from) {
+			if le.Kind == "S" {
+				ex = append(ex, le.Label)
+			}
+		}
+		return ex, res.LoadErr + res.RunErr
+	}
+	os.WriteFile(filepath.Join(s.Root, "BUILD.dawn"), []byte(text()), 0o644)
+	if ex, err := build(); err != "" || len(ex) != 1 {
+		c.Violation(id, "", "clean-build-fails", map[string]any{"error": err, "executed": ex, "build_file": text()})
+		return
+	}
+	if ex, _ := build(); len(ex) != 0 {
+		c.Inconclusive("sibling-closures: the unchanged tree re-executes (C02's business); no expectation for C01")
+		return
+	}
+	old := vals[k]
+	vals[k] = map[int]string{0: "\"ALPHA\"", 1: "\"BETA\"", 2: "\"GAMMA\"", 3: "70001", 4: "70002", 5: "70003", 6: "\"INNER-MOST\"", 7: "[10, 21, 30]"}[k]
+	os.WriteFile(filepath.Join(s.Root, "BUILD.dawn"), []byte(text()), 0o644)
+	ex, err := build()
+	c.Eval(id)
+	c.Distinct(id)
+	c.Count("sibling_closure_value_edits", 1)
+	if err != "" || len(ex) == 0 {
+		c.Violation(id, "", "stale", map[string]any{"edited_value": old + " -> " + vals[k], "executed": ex, "error": err, "build_file": text(),
+			"why": "a value captured (or defaulted) by one of several closures of one factory changed, the build reported success and //:t did not re-execute"})
+	}
+}
+
 func init() {
 	for _, which := range []string{"C01", "C02"} {
 		which := which
 		registerCase("hist-"+which, func(c *core.Ctx, id string) {
+			if strings.HasPrefix(id, "named/sibling-closures/") {
+				c01SiblingClosures(c, id)
+				return
+			}
 			if strings.HasPrefix(id, "named/") {
 				c02Named(c, id)
 				return
